@@ -279,23 +279,35 @@ fn dump_store(
         seen.drain(..cut);
     }
     let rs = std::collections::hash_map::RandomState::new();
-    for d in seen.iter() {
+    // index the stored copies once: (type, owner) -> [(record, key, bytes)]
+    let mut by_name: HashMap<(u16, Labels), Vec<(&ResourceRecord<'static>, RecKey, Vec<u8>)>> = HashMap::new();
+    for s in &owned {
+        if let Some((sk, _, _, sbytes)) = record_key(s) {
+            by_name.entry((sk.rtype, sk.owner.clone())).or_default().push((s, sk, sbytes));
+        }
+    }
+    let mut budget = 4000usize; // bound the in-run oracle work per dump
+    for d in seen.iter().rev() {
         let Some(dg) = ctl::dgram(*d) else { continue };
         let Ok(Ok(p)) = catch_unwind(AssertUnwindSafe(|| Packet::parse(&dg.bytes[..]))) else { continue };
         for b in p.answers.iter().chain(p.additional_records.iter()) {
+            if budget == 0 {
+                break;
+            }
+            budget -= 1;
             let Some((bk, _, _, bbytes)) = record_key(b) else { continue };
-            for s in &owned {
-                let Some((sk, _, _, sbytes)) = record_key(s) else { continue };
-                let eq = *b == *s;
-                if sk == bk && !eq {
+            let Some(cands) = by_name.get(&(bk.rtype, bk.owner.clone())) else { continue };
+            for (s, sk, sbytes) in cands {
+                let eq = *b == **s;
+                if *sk == bk && !eq {
                     c16.push(format!("owned-ne: stored owned copy of a type {} record is not == its borrowed original", bk.rtype));
                 }
                 if eq {
-                    if h3(b, &rs) != h3(s, &rs) {
+                    if h3(b, &rs) != h3(*s, &rs) {
                         c16.push(format!("owned-hash: equal borrowed/owned type {} records hash differently", bk.rtype));
                     }
                     // serialised form of equal records (TTL may legitimately differ)
-                    if sk != bk || sbytes.len() != bbytes.len() {
+                    if *sk != bk || sbytes.len() != bbytes.len() {
                         c16.push(format!("owned-bytes: equal borrowed/owned type {} records serialise differently", bk.rtype));
                     }
                 }
